@@ -120,7 +120,16 @@ func c05Body(x *explore.Exec, in []byte, limit uint32, errAt int, glued, all boo
 	want := detect(in, limit)
 	r := &xreader{data: in, x: x, all: all, errAt: errAt, errGlued: glued}
 	setLimit(limit)
-	got, err := mimetype.DetectReader(r)
+	var got *mimetype.MIME
+	var err error
+	var pan any
+	func() {
+		defer func() { pan = recover() }()
+		got, err = mimetype.DetectReader(r)
+	}()
+	if pan != nil {
+		return false, "C05/reader-entry-panics", fmt.Sprintf("input %s limit %d schedule %v: DetectReader panics (%v) where Detect on the same bytes reports %s", core.Quote(in), limit, x.Choices, pan, chainStr(want))
+	}
 	if got == nil {
 		return false, "C05/nil", "DetectReader returned nil"
 	}
@@ -401,6 +410,22 @@ func c05Run(c *core.Ctx) {
 			c.R.Evals++
 			c.R.Transitions++
 			c.Check(fc)
+			wit++
+		}
+	}
+	// W2: every witness (<= 4 KiB) at every limit inside it: the reader (default
+	// answers) and Detect agree, whatever field the limit happens to cut
+	dc := &core.Case{Kind: "c05", Ints: []int{-1, 0, 0}}
+	for _, w := range corpus(c) {
+		if len(w.Data) > 4096 || !c.Next() || c.Expired() {
+			continue
+		}
+		for L := 1; L < len(w.Data); L++ {
+			dc.In, dc.Limit = w.Data, uint32(L)
+			c.R.Evals++
+			c.R.States++
+			c.R.Transitions++
+			c.Check(dc)
 			wit++
 		}
 	}
